@@ -1,7 +1,7 @@
 (* C03 — memory-pool reservations never overlap and keep their contents.
    Model.fixed is the source after fixes/C03-1..4 and fixes/C04-1; the *_refuted theorems show,
    one repair at a time, what the model of the unrepaired source does. *)
-From Coq Require Import List ZArith Bool Sorting.Sorted.
+From Coq Require Import List ZArith Bool Lia Sorting.Sorted.
 From OV.C03 Require Import Model Spec Statements Theorems.
 Import ListNotations.
 Local Open Scope Z_scope.
@@ -59,14 +59,16 @@ Qed.
 Print Assumptions fragmented_equal_size_overlap_refuted.
 
 (* two small slices of a released reservation become two blocks of 128 bytes although they were
-   accounted as 128 bytes together: the second block is copied past the end of the new buffer *)
+   accounted as 128 bytes together: newReserved (256) exceeds what resize was asked for and the next
+   reservation is placed at [256,384), outside the 256-byte buffer *)
 Definition orphans : list op :=
   [OReserve 1 128; OSlice 2 1 0 10; OSlice 3 1 20 10; OFree 1; OReserve 4 128].
 Theorem sliced_blocks_overflow_refuted :
   ops_ok orphans /\ ~ Inv_pool (snd (run without_round state0 orphans)) (s_run sstate0 (map sop_of orphans)).
 Proof.
   split; [repeat constructor; cbn; discriminate|].
-  intros (_ & _ & _ & O & _). vm_compute in O. discriminate O.
+  intros (A & _). specialize (A (mkRes 4 256 128)). vm_compute in A.
+  destruct A as (_ & _ & A); [right; right; left; reflexivity|]. apply A. reflexivity.
 Qed.
 Print Assumptions sliced_blocks_overflow_refuted.
 
